@@ -208,7 +208,7 @@ struct LinkWorld : World {
         k[K_MAXMSG] = mm[kr.below(11)]; k[K_NMSG] = 1 + kr.below(4); k[K_STRATEGY] = kr.below(S_COUNT);
         k[K_FAULTS] = kr.chance(0.7); k[K_CHUNKPCT] = kr.pick(std::vector<int>{0, 20, 50, 90});
         int maxmsg = (int)k[K_MAXMSG]; bool faults = k[K_FAULTS];
-        int nw = 1 + (int)pr.below(pr.chance(0.7) ? 8 : 24), nr = 1 + (int)pr.below(pr.chance(0.7) ? 10 : 40);
+        int big = g_tier ? 2 : 1; int nw = 1 + (int)pr.below(pr.chance(0.7) ? 8 : 24 * big), nr = 1 + (int)pr.below(pr.chance(0.7) ? 10 : 40 * big);
         std::vector<Op> w, r; int id = 1;
         for (int i = 0; i < nw; i++) {
             Op o; o.party = 0;
